@@ -160,3 +160,10 @@ func VerifC06_LocalStores() {
 		}
 	}
 }
+
+// Success also means complete when the job is cancelled part-way (the harness bodies are C07's:
+// a goroutine cancels the context at any scheduling point; nil => every chunk is in the store /
+// the index covers the input).
+func VerifC06_ChopFileCancelled()    { VerifC07_ChopFile() }
+func VerifC06_CopyCancelled()        { VerifC07_Copy() }
+func VerifC06_ChunkStreamCancelled() { VerifC07_ChunkStream() }
